@@ -431,9 +431,14 @@ def _t5_one(args):
     return r
 
 
-def t5(out):
+def t5(out, tier="quick"):
     import multiprocessing as mp
     jobs = [(n, IMPORTS + s, p) for n, s in sorted(T5_SCRIPTS.items()) for p in (0, 1, 2, 3)]
+    gen = {}
+    if tier == "thorough":
+        from progs.gen import programs
+        gen = programs(120, seed=1)
+        jobs += [(n, s, p) for n, s in sorted(gen.items()) for p in (0, 1, 2)]
     t0 = time.time()
     with mp.Pool(16) as pool:
         res = pool.map(_t5_one, jobs, chunksize=1)
@@ -447,7 +452,7 @@ def t5(out):
         status = "discharged" if not badr else ("unknown" if harness else "sat")
         out.append({"name": f"C05/T5/{name}", "status": status, "backend": "bounded-differential", "bounded": True,
                     "where": f"script {name}: firmware trace equals CPython's for N = 0, 1, 2, 3 loop() passes" + (" and the pin effect follows the variable" if name in T5_EFFECTS else ""),
-                    "time": per * len(rs), "replay": {"script": IMPORTS + T5_SCRIPTS[name], "failing": [{k: r.get(k) for k in ("passes", "verdict", "first_difference", "detail")} for r in badr[:2]]},
+                    "time": per * len(rs), "replay": {"script": (IMPORTS + T5_SCRIPTS[name]) if name in T5_SCRIPTS else gen.get(name), "failing": [{k: r.get(k) for k in ("passes", "verdict", "first_difference", "detail")} for r in badr[:2]]},
                     "replay_confirmed": status == "sat"})
     PROPERTY["bounded"] = [{"check": "T5 persistence differential", "bound": f"{len(T5_SCRIPTS)} scripts x N in 0..3 passes"}]
 
@@ -461,7 +466,7 @@ def extra_obligations(mods, tier, seed):
     t3(P, E, out)
     t4_enum(P, out)
     t4_static(out)
-    t5(out)
+    t5(out, tier)
     return out
 
 
